@@ -71,6 +71,13 @@ def run(pid, tier, args):
                     v.violation("Parseable root type: repeated ParseFromLexer over `a b c` gives [%s], expected [%s]" % (got, want), {"property": pid, "kind": "api-parseable", "real": got, "expected": want})
             for key, eps in calls.items():
                 ncases += 1
+                if key[0] == "parseable-root-eps":
+                    outs = {ep: eps[ep] for ep in PARSE_EPS if ep in eps}
+                    want = ["ok a", "err", "err", "ok a"][key[2]]
+                    if len(set(outs.values())) > 1 or not all(o.startswith(want) for o in outs.values()):
+                        v.violation("a root grammar type implemented by user code (Parseable), input #%d: entry points give %s, expected %s" % (key[2], json.dumps(outs)[:400], want),
+                                    {"property": pid, "kind": "api-parseable-root", "calls": eps})
+                    continue
                 if key[0] in ("deep", "history"):
                     outs = {ep: eps[ep] for ep in PARSE_EPS if ep in eps}
                     if len(set(outs.values())) > 1:
